@@ -12,6 +12,7 @@ import BiscuitModel.Model.ExprParser
 import BiscuitModel.Model.RuleParser
 import BiscuitModel.Model.BlockParser
 import BiscuitModel.Model.WireDec
+import BiscuitModel.Model.Convert
 open Lean Biscuit Biscuit.Codec
 
 def runExpr (j : Json) : P Json := do
@@ -728,6 +729,169 @@ def runBlockParse (j : Json) : P Json := do
 
 end BlockParseOp
 
+/-! ### convert (C02, C12, C16): `proto_block_to_token_block` / `token_block_to_proto_block` -/
+section ConvertOp
+open Biscuit.Convert
+
+partial def parsePTerm (j : Json) : P PTerm := do
+  if (fieldOpt j "e").isSome then return .empty
+  if let some v := fieldOpt j "v" then return .variable (← getNat v)
+  if let some v := fieldOpt j "i" then return .integer (← getInt v)
+  if let some v := fieldOpt j "s" then return .string (← getNat v)
+  if let some v := fieldOpt j "d" then return .date (← getNat v)
+  if let some v := fieldOpt j "b" then return .bytes (← unhex (← v.getStr?))
+  if let some v := fieldOpt j "t" then return .bool (← v.getBool?)
+  if let some v := fieldOpt j "set" then return .set (← (← getArr v).mapM parsePTerm)
+  if (fieldOpt j "null").isSome then return .null
+  if let some v := fieldOpt j "arr" then return .array (← (← getArr v).mapM parsePTerm)
+  if let some v := fieldOpt j "map" then
+    let es ← (← getArr v).mapM fun kv => do
+      match ← getArr kv with
+      | [k, t] =>
+        let key ← (do
+          if let some x := fieldOpt k "i" then return some (MapKey.int (← getInt x))
+          if let some x := fieldOpt k "s" then return some (MapKey.str (← getNat x))
+          return none : P (Option MapKey))
+        pure (key, ← parsePTerm t)
+      | _ => throw "bad map entry"
+    return .map es
+  throw s!"bad proto term {j.compress}"
+
+def optNat (j : Json) : P (Option Nat) := do
+  match j with
+  | .null => pure none
+  | _ => pure (some (← getNat j))
+
+partial def parsePOpC (j : Json) : P Convert.POp := do
+  if (fieldOpt j "e").isSome then return .empty
+  if let some v := fieldOpt j "val" then return .value (← parsePTerm v)
+  if let some v := fieldOpt j "un" then
+    match ← getArr v with
+    | [k, f] => return .unary (← getInt k) (← optNat f)
+    | _ => throw "bad unary"
+  if let some v := fieldOpt j "bin" then
+    match ← getArr v with
+    | [k, f] => return .binary (← getInt k) (← optNat f)
+    | _ => throw "bad binary"
+  if let some v := fieldOpt j "clo" then
+    match ← getArr v with
+    | [ps, ops] => return .closure (← (← getArr ps).mapM getNat) (← (← getArr ops).mapM parsePOpC)
+    | _ => throw "bad closure"
+  throw s!"bad proto op {j.compress}"
+
+def parsePScope (j : Json) : P PScope := do
+  if (fieldOpt j "e").isSome then return .empty
+  if let some v := fieldOpt j "ty" then return .scopeType (← getInt v)
+  if let some v := fieldOpt j "key" then return .publicKey (← getInt v)
+  throw "bad proto scope"
+
+def parsePPred (j : Json) : P PPred := do
+  pure ⟨← getNat (← field j "n"), ← (← getArr (← field j "t")).mapM parsePTerm⟩
+
+def parsePRule (j : Json) : P PRule := do
+  pure ⟨← parsePPred (← field j "h"), ← (← getArr (← field j "b")).mapM parsePPred,
+    ← (← getArr (← field j "e")).mapM (fun e => do (← getArr e).mapM parsePOpC),
+    ← (← getArr (← field j "sc")).mapM parsePScope⟩
+
+def parsePBlock (j : Json) : P PBlock := do
+  let symbols ← (← getArr (← field j "symbols")).mapM fun s => do pure (← s.getStr?).toUTF8.toList
+  let context : Option Str := match fieldOpt j "context" with
+    | some (.str s) => some s.toUTF8.toList
+    | _ => none
+  let version ← (match fieldOpt j "version" with
+    | some .null => pure none
+    | some v => do pure (some (← getNat v))
+    | none => pure none : P (Option Nat))
+  let facts ← (← getArr (← field j "facts")).mapM parsePPred
+  let rules ← (← getArr (← field j "rules")).mapM parsePRule
+  let checks ← (← getArr (← field j "checks")).mapM fun c => do
+    let k ← (match ← field c "k" with
+      | .null => pure none
+      | v => do pure (some (← getInt v)) : P (Option Int))
+    pure (⟨← (← getArr (← field c "q")).mapM parsePRule, k⟩ : PCheck)
+  let sc ← (← getArr (← field j "sc")).mapM parsePScope
+  let keys ← (← getArr (← field j "keys")).mapM fun k => do
+    match k with
+    | .num _ => pure (some (← getNat k))
+    | _ => pure (none : Option Nat)
+  pure ⟨symbols, context, version, facts, rules, checks, sc, keys⟩
+
+partial def pTermJ : PTerm → Json
+  | .empty => Json.mkObj [("e", 1)]
+  | .variable v => Json.mkObj [("v", v)]
+  | .integer i => Json.mkObj [("i", Json.num (JsonNumber.fromInt i))]
+  | .string s => Json.mkObj [("s", s)]
+  | .date d => Json.mkObj [("d", d)]
+  | .bytes b => Json.mkObj [("b", hex b)]
+  | .bool b => Json.mkObj [("t", b)]
+  | .set xs => Json.mkObj [("set", Json.arr (xs.map pTermJ).toArray)]
+  | .null => Json.mkObj [("null", 1)]
+  | .array xs => Json.mkObj [("arr", Json.arr (xs.map pTermJ).toArray)]
+  | .map es => Json.mkObj [("map", Json.arr (es.map fun (k, t) =>
+      Json.arr #[(match k with
+        | some (.int i) => Json.mkObj [("i", Json.num (JsonNumber.fromInt i))]
+        | some (.str s) => Json.mkObj [("s", s)]
+        | none => Json.mkObj [("e", 1)]), pTermJ t]).toArray)]
+
+def optNatJ : Option Nat → Json
+  | none => Json.null
+  | some n => n
+
+partial def pOpJ : Convert.POp → Json
+  | .empty => Json.mkObj [("e", 1)]
+  | .value t => Json.mkObj [("val", pTermJ t)]
+  | .unary k f => Json.mkObj [("un", Json.arr #[Json.num (JsonNumber.fromInt k), optNatJ f])]
+  | .binary k f => Json.mkObj [("bin", Json.arr #[Json.num (JsonNumber.fromInt k), optNatJ f])]
+  | .closure ps ops => Json.mkObj [("clo", Json.arr #[Json.arr (ps.map fun (p : Nat) => (p : Json)).toArray, Json.arr (ops.map pOpJ).toArray])]
+
+def pScopeJ : PScope → Json
+  | .empty => Json.mkObj [("e", 1)]
+  | .scopeType i => Json.mkObj [("ty", Json.num (JsonNumber.fromInt i))]
+  | .publicKey i => Json.mkObj [("key", Json.num (JsonNumber.fromInt i))]
+
+def pPredJ (p : PPred) : Json := Json.mkObj [("n", p.name), ("t", Json.arr (p.terms.map pTermJ).toArray)]
+
+def pRuleJ (r : PRule) : Json :=
+  Json.mkObj [("h", pPredJ r.head), ("b", Json.arr (r.body.map pPredJ).toArray),
+    ("e", Json.arr (r.exprs.map fun e => Json.arr (e.map pOpJ).toArray).toArray),
+    ("sc", Json.arr (r.scope.map pScopeJ).toArray)]
+
+def strJ (s : Str) : Json := match String.fromUTF8? ⟨s.toArray⟩ with
+  | some t => Json.str t
+  | none => Json.str "<invalid utf-8>"
+
+def pBlockJ (b : PBlock) : Json :=
+  Json.mkObj [("symbols", Json.arr (b.symbols.map strJ).toArray),
+    ("context", match b.context with | some c => strJ c | none => Json.null),
+    ("version", optNatJ b.version),
+    ("facts", Json.arr (b.facts.map pPredJ).toArray),
+    ("rules", Json.arr (b.rules.map pRuleJ).toArray),
+    ("checks", Json.arr (b.checks.map fun c => Json.mkObj [("q", Json.arr (c.queries.map pRuleJ).toArray),
+      ("k", match c.kind with | some k => Json.num (JsonNumber.fromInt k) | none => Json.null)]).toArray),
+    ("sc", Json.arr (b.scope.map pScopeJ).toArray),
+    ("keys", Json.arr (b.publicKeys.map fun k => match k with | some k => (k : Json) | none => Json.str "?").toArray)]
+
+def convErrJ : ConvErr → String
+  | .version => "version" | .emptyId => "emptyId" | .setVariable => "setVariable" | .setSet => "setSet" | .setMixed => "setMixed"
+  | .opEmpty => "opEmpty" | .unaryEmpty => "unaryEmpty" | .unaryFfiMissing => "ffiMissing" | .unaryFfiExtra => "unaryFfiExtra"
+  | .binaryEmpty => "binaryEmpty" | .binaryFfiMissing => "ffiMissing" | .binaryFfiExtra => "binaryFfiExtra"
+  | .checkKind => "checkKind" | .checkKindVersion => "checkKindVersion" | .rejectVersion => "rejectVersion"
+  | .thirdPartyVersion => "thirdPartyVersion" | .scopesVersion => "scopesVersion" | .scopeType => "scopeType"
+  | .scopeEmpty => "scopeEmpty" | .badKey => "badKey" | .keyOverlap => "keyOverlap" | .symbolOverlap => "symbolOverlap"
+  | .compat33 => "compat33" | .compatScopes => "compatScopes" | .compat31 => "compat31" | .compatCheckAll => "compatCheckAll"
+
+def runConvert (j : Json) : P Json := do
+  let pb ← parsePBlock (← field j "block")
+  let ext ← (match fieldOpt j "ext" with
+    | some .null => pure none
+    | some v => do pure (some (← getNat v))
+    | none => pure none : P (Option Nat))
+  match protoToBlock pb ext with
+  | .error e => pure (Json.mkObj [("err", convErrJ e)])
+  | .ok b => pure (Json.mkObj [("ok", pBlockJ (blockToProto b)), ("ext", optNatJ b.core.extKey)])
+
+end ConvertOp
+
 /-! ### keys (C17) -/
 section KeysOp
 open Biscuit.Keys
@@ -1020,6 +1184,7 @@ def handle (line : String) : String :=
       | "exprparse" => runExprParse j
       | "itemparse" => runItemParse j
       | "blockparse" => runBlockParse j
+      | "convert" => runConvert j
       | "untrusted" => runUntrusted j
       | "macros" => runMacros j
       | "capi" => runCApi j
